@@ -163,7 +163,7 @@ def decide(prop, tier, seed, jobs, t0):
                 elif o["verdict"] == "failed":
                     violations.append({"obligation": oid, "result": r, "ob": o})
                 else:
-                    undecided.append({"obligation": oid, "why": "solver " + o["verdict"]})
+                    undecided.append({"obligation": oid, "why": ("solver " + o["verdict"]) if o.get("solver") != "syntactic" else str(o.get("detail"))})
         functions.append(fn)
 
     g_total = g_ok = 0
